@@ -205,10 +205,11 @@ def gen(ctx, count):
         # any distinct integer keys: parser style 1..n, 0-based, sparse, not ascending
         r = rng.random()
         k = len(c["base"])
-        if r < 0.25:
+        if r < 0.2:
             keys = list(range(k))
-        elif r < 0.4:
-            keys = rng.sample(range(0, 3 * k + 2), k)
+        elif r < 0.5:
+            # one- and two-digit keys mixed; half of the time from a pool where one key is a decimal prefix of another
+            keys = rng.sample([1, 10, 11, 12, 13, 2, 20, 21, 3, 30, 0], k) if rng.random() < 0.5 else rng.sample(range(0, 25), k)
         else:
             keys = None
         if keys is not None:
